@@ -1,5 +1,181 @@
 import RV.Json
+import RV.Drv.Arith
+import RV.Model.CtlCanary
+import RV.Oracle.CtlCanary
 namespace RV.Drv.CtlCanary
-open Lean RV
-def handle : Handler := fun op _ _ => .error s!"CtlCanary: op {op} not implemented"
+open Lean RV RV.Arith RV.CtlCanary RV.Drv.Arith
+
+def kvOfJson (j : Json) : R KV :=
+  match j with
+  | .null => .ok []
+  | .obj m => (m.toList).mapM (fun (k, v) => do return (k, ← jstr v))
+  | _ => .error s!"kv: {j.compress}"
+
+def kvToJson (m : KV) : Json := mkObj (m.map fun (k, v) => (k, strJ v))
+
+def ownerOf : String → R Owner
+  | "none" => .ok .none | "this" => .ok .this | "other" => .ok .other | "thisNonCtrl" => .ok .thisNonCtrl
+  | s => .error s!"owner {s}"
+def ownerStr : Owner → String
+  | .none => "none" | .this => "this" | .other => "other" | .thisNonCtrl => "thisNonCtrl"
+def ctrlOf : String → R Ctrl
+  | "none" => .ok .none | "this" => .ok .this | "other" => .ok .other
+  | s => .error s!"ctrl {s}"
+def ctrlStr : Ctrl → String
+  | .none => "none" | .this => "this" | .other => "other"
+
+def templateOfJson (j : Json) : R Template := do
+  return { rev := ← fNat j "rev", labels := ← kvOfJson (jgetD j "labels" .null), annos := ← kvOfJson (jgetD j "annos" .null) }
+def templateToJson (t : Template) : Json :=
+  mkObj [("rev", natJ t.rev), ("labels", kvToJson t.labels), ("annos", kvToJson t.annos)]
+
+def strategyOfJson (j : Json) : R Strategy := do
+  let ty ← (match ← fStr j "type" with
+    | "rolling" => pure StrategyType.rolling
+    | _ => pure StrategyType.other)
+  let ru ← (match jopt j "rolling" with
+    | none => pure none
+    | some r => do pure (some (← iosOptOfJson r "maxSurge", ← iosOptOfJson r "maxUnavailable")))
+  return { type := ty, rolling := ru }
+def strategyToJson (s : Strategy) : Json :=
+  mkObj [("type", strJ (match s.type with | .rolling => "rolling" | .other => "other")),
+         ("rolling", match s.rolling with
+            | none => .null
+            | some (a, b) => mkObj [("maxSurge", optJ iosToJson a), ("maxUnavailable", optJ iosToJson b)])]
+
+def depOfJson (j : Json) : R Dep := do
+  return { name := ← fNat j "name", owner := ← ownerOf (← fStr j "owner"), ctrl := ← ctrlOf (← fStr j "ctrl"),
+           canaryOf := ← fOptNat j "canaryOf", template := ← templateOfJson (← jget j "template"),
+           replicas := ← fOptInt j "replicas", paused := ← fBool j "paused", finalizer := ← fBool j "finalizer",
+           otherFinalizer := ← fBool j "otherFinalizer", deleting := ← fBool j "deleting", created := ← fInt j "created",
+           generation := ← fInt j "generation", observedGeneration := ← fInt j "observedGeneration",
+           statusReplicas := ← fInt j "statusReplicas", updatedReplicas := ← fInt j "updatedReplicas",
+           availableReplicas := ← fInt j "availableReplicas", strategy := ← strategyOfJson (← jget j "strategy") }
+
+def depToJson (d : Dep) : Json :=
+  mkObj [("name", natJ d.name), ("owner", strJ (ownerStr d.owner)), ("ctrl", strJ (ctrlStr d.ctrl)),
+    ("canaryOf", optJ natJ d.canaryOf), ("template", templateToJson d.template), ("replicas", optJ intJ d.replicas),
+    ("paused", boolJ d.paused), ("finalizer", boolJ d.finalizer), ("otherFinalizer", boolJ d.otherFinalizer),
+    ("deleting", boolJ d.deleting), ("created", intJ d.created), ("generation", intJ d.generation),
+    ("observedGeneration", intJ d.observedGeneration), ("statusReplicas", intJ d.statusReplicas),
+    ("updatedReplicas", intJ d.updatedReplicas), ("availableReplicas", intJ d.availableReplicas),
+    ("strategy", strategyToJson d.strategy)]
+
+def worldOfJson (j : Json) : R World := do
+  return { deps := ← (← jarr j).mapM depOfJson }
+def worldToJson (w : World) : Json := arrJ (w.deps.map depToJson)
+
+def brOfJson (j : Json) : R BR := do
+  let patch ← (match jopt j "patch" with
+    | none => pure none
+    | some p => do pure (some (← kvOfJson (jgetD p "labels" .null), ← kvOfJson (jgetD p "annos" .null))))
+  return { key := ← fNat j "key", batches := ← (← fArrD j "batches").mapM iosOfJson, currentBatch := 0,
+           partition := ← fOptInt j "partition", rolloutID := ← fBool j "rolloutID",
+           failureThreshold := ← iosOptOfJson j "failureThreshold", waitResume := ← fBool j "waitResume", patch := patch }
+
+def opOf : String → R Op
+  | "initialize" => .ok .init | "upgradeBatch" => .ok .upgrade | "ensureReady" => .ok .ensure | "finalize" => .ok .fin
+  | s => .error s!"op {s}"
+def opStr : Op → String
+  | .init => "initialize" | .upgrade => "upgradeBatch" | .ensure => "ensureReady" | .fin => "finalize"
+def evOf : String → R Event
+  | "none" => .ok .none | "clearExp" => .ok .clearExp | "observe" => .ok .observe | "newTemplate" => .ok .newTemplate
+  | s => .error s!"event {s}"
+def evStr : Event → String
+  | .none => "none" | .clearExp => "clearExp" | .observe => "observe" | .newTemplate => "newTemplate"
+def expOf : String → R Exp
+  | "none" => .ok .none | "pending" => .ok .pending
+  | s => .error s!"exp {s}"
+def expStr : Exp → String
+  | .none => "none" | .pending => "pending"
+def resOf : String → R Res
+  | "ok" => .ok .ok | "err" => .ok .err | "notFound" => .ok .notFound | "panic" => .ok .panic
+  | s => .error s!"res {s}"
+def resStr : Res → String
+  | .ok => "ok" | .err => "err" | .notFound => "notFound" | .panic => "panic"
+
+def stepOfJson (j : Json) : R Step := do
+  return { ev := ← evOf (← fStr j "ev"), op := ← opOf (← fStr j "op"),
+           cfg := { failAt := ← fOptNat j "failAt", reads := ← fBool j "reads", timedOut := ← fBool j "timedOut" },
+           currentBatch := ← fInt j "currentBatch" }
+
+def statusToJson (s : InitStatus) : Json :=
+  mkObj [("observedReplicas", intJ s.observedReplicas), ("stableRevision", strJ ""),
+         ("updateRevision", templateToJson s.updateRevision)]
+
+def outToJson (o : StepOut) : Json :=
+  mkObj [("res", strJ (resStr o.res)), ("world", worldToJson o.w), ("exp", strJ (expStr o.exp)),
+         ("calls", natJ o.calls), ("status", optJ statusToJson o.status)]
+
+/-- the implementation's step output; `status` is not needed by the oracles -/
+def outOfJson (j : Json) : R StepOut := do
+  return { res := ← resOf (← fStr j "res"), w := ← worldOfJson (← jget j "world"), exp := ← expOf (← fStr j "exp"),
+           calls := ← fNat j "calls", status := none }
+
+/-- the oracles of every call, evaluated on the implementation's worlds; a key holds iff it holds for every call -/
+def oraclesOnImpl (br : BR) (w : World) (exp : Exp) : List Step → List StepOut → List (String × Bool)
+  | st :: steps, o :: outs =>
+    let e := applyEvent br st.ev w exp
+    let here := RV.Oracle.CtlCanary.stepOracles { br with currentBatch := st.currentBatch } st.op st.cfg e.1 e.2 o
+    let rest := oraclesOnImpl br o.w o.exp steps outs
+    let keys := (here.map (·.1) ++ rest.map (·.1)).eraseDups
+    keys.map fun k => (k, (here ++ rest).all (fun kv => kv.1 != k || kv.2))
+  | _, _ => []
+
+/-- what the call did, for the distribution statistics -/
+def effectTags (st : Step) (w : World) (exp : Exp) (o : StepOut) : List String :=
+  let dropped := (w.deps.filter fun d => d.finalizer && (match o.w.find d.name with
+    | some d' => !d'.finalizer
+    | none => true)).length
+  let scaled := w.deps.any fun d => match o.w.find d.name with
+    | some d' => d'.replicas != d.replicas
+    | none => false
+  (if st.op = .fin then [s!"fin:dropped:{min dropped 4}"] else []) ++
+  (if st.op = .fin ∧ o.res = .err ∧ dropped > 0 then ["fin:partial"] else []) ++
+  (if scaled then ["upgrade:scaled"] else []) ++
+  (if o.w.deps.length > w.deps.length then ["init:created"] else []) ++
+  (if st.op = .init ∧ o.res = .err ∧ exp = .pending ∧ st.cfg.timedOut = false ∧ st.cfg.failAt.isNone ∧
+      RV.Oracle.CtlCanary.matchCount { (default : BR) with key := 0 } w = 0 ∧ o.w.deps.length = w.deps.length
+    then ["init:maybeBlockedByExpectation"] else [])
+
+def effectTagsRun (br : BR) (w : World) (exp : Exp) : List Step → List StepOut → List String
+  | st :: steps, o :: outs =>
+    effectTags st (applyEvent br st.ev w exp).1 (applyEvent br st.ev w exp).2 o ++ effectTagsRun br o.w o.exp steps outs
+  | _, _ => []
+
+def faultTag (st : Step) : String :=
+  match st.cfg.failAt with
+  | none => "fault:none"
+  | some _ => if st.cfg.reads then "fault:any-call" else "fault:write"
+
+def handle : Handler := fun op inp impl => do
+  match op with
+  | "run" =>
+    let br ← brOfJson (← jget inp "br")
+    let w ← worldOfJson (← jget inp "world")
+    let exp ← expOf (← fStr inp "exp")
+    let steps ← (← fArr inp "steps").mapM stepOfJson
+    let iouts ← (← fArr impl "steps").mapM outOfJson
+    let mouts := run br w exp steps
+    let wf := RV.Oracle.CtlCanary.namesNodup w
+    let holds := oraclesOnImpl br w exp steps iouts
+    let created := (mouts.getLast?.map (fun o => decide (o.w.deps.length > w.deps.length))).getD false
+    let tags :=
+      ((steps.map fun st => s!"op:{opStr st.op}") ++ (steps.map fun st => s!"ev:{evStr st.ev}") ++
+       (steps.map faultTag) ++ (mouts.map fun o => s!"res:{resStr o.res}") ++
+       (List.zipWith (fun st o => s!"{opStr st.op}:{resStr o.res}") steps mouts) ++
+       effectTagsRun br w exp steps mouts ++
+       (if br.waitResume then ["waitResume"] else []) ++ (if br.rolloutID then ["rolloutID"] else []) ++
+       [s!"steps:{min steps.length 6}", s!"deps:{min w.deps.length 6}",
+        s!"owned:{min (w.deps.filter RV.Oracle.CtlCanary.owned).length 5}",
+        s!"match:{min (RV.Oracle.CtlCanary.matchCount br w) 3}",
+        if br.patch.isSome then "patchMeta" else "noPatchMeta",
+        if br.partition.isSome then "partitioned" else "promote",
+        if (w.find br.key).isSome then "stable" else "nostable"] ++
+       (if created then ["created"] else []) ++
+       (if wf then [] else ["dupNames"]) ++
+       (if steps.isEmpty then ["trivial"] else [])).eraseDups
+    return { model := mkObj [("steps", arrJ (mouts.map outToJson))], holds := holds, tags := tags }
+  | _ => .error s!"ctlcanary: unknown op {op}"
+
 end RV.Drv.CtlCanary
